@@ -42,6 +42,8 @@ class ExpDomain:
     def call(self, ex, fk, args, term, fr):
         n = fk.name
         i = fk.i
+        if fr is not None:
+            self.__dict__.setdefault("visited", set()).add(fr.body.path)
         if "Fq12" in i or "fq12" in fk.d:
             if n == "mul" and len(args) == 2:
                 a, b = self.val(ex, args[0]), self.val(ex, args[1])
@@ -68,6 +70,9 @@ class ExpDomain:
                 a = self.val(ex, args[0])
                 k = args[1]
                 self.used.add("frobenius_map")
+                sp = (term or {}).get("span") or {}
+                if fr is not None:
+                    self.__dict__.setdefault("frob_sites", {}).setdefault((fr.body.path, sp.get("line"), sp.get("col")), set()).add(k if isinstance(k, int) and not isinstance(k, bool) else None)
                 if a is not None and isinstance(k, int) and 0 <= k <= 12:
                     return self.E(a * self.q ** k)
                 return TOP
@@ -105,6 +110,37 @@ class ExpDomain:
                         return Adt("core::option::Option", "Some", [rs[0][0]])
             return TOP
         return NotImplemented
+
+
+def observed_frobenius_powers(repo):
+    """The final-exponentiation entry points executed once in the exponent domain (tables and interpreters run out concretely):
+    → ({(function, line, col) of a frobenius_map call: set of integer powers it was reached with, None for an unknown one},
+       set of functions the executions went through)"""
+    if getattr(repo, "_obs_frob", None) is not None:
+        return repo._obs_frob
+    F = repo.F
+    from .roles import PairingRoles
+    from core.absexec import same_module_inline, Frame
+    chains = chain_functions(F)
+    entries = [b for p, b in chains.items() if (b.rec.get("output") or "").startswith("core::option::Option<") and b.vis == "Public"]
+    powb = PairingRoles(F).pow
+    pow_path = powb[0].rec["path"] if len(powb) == 1 else None
+    sites, visited = {}, set()
+    for b in entries:
+        smi = same_module_inline(F, b.rec["path"])
+        dom = ExpDomain(repo, pow_path=pow_path)
+        ex = AbsExec(F, dom, inline=lambda d: smi(d) and d != pow_path)
+        hf = Frame(b, [])
+        hf.env[0] = dom.E(1)
+        try:
+            ex.run(b, [Ref(hf, 0)])
+        except FactsError:
+            continue
+        for k, v in (getattr(dom, "frob_sites", None) or {}).items():
+            sites.setdefault(k, set()).update(v)
+        visited |= getattr(dom, "visited", set()) | {b.rec["path"]}
+    repo._obs_frob = (sites, visited)
+    return repo._obs_frob
 
 
 def chain_functions(F):
